@@ -15,7 +15,7 @@ from processscheduler.solution import SchedulingSolution, TaskSolution, Resource
 
 from symx import engine, formula
 from symx.formula import And, Or, Not
-from symx.harness import Shape, Ob, Ctx, run_property, quiet
+from symx.harness import library_failure, confirm_library_failure, Shape, Ob, Ctx, run_property, quiet
 
 PROP = "C17"
 
@@ -350,6 +350,7 @@ def concrete_shape(layout_name, mode, twice, calendar=False):
     def build(P):
         return Ctx(problem=None)
 
+    @library_failure
     def fn(ctx, path):
         problems = agg_check(layout_name, mode, twice, calendar)
         if problems:
@@ -365,6 +366,7 @@ def concrete_shape(layout_name, mode, twice, calendar=False):
     return sh
 
 
+@confirm_library_failure
 def replay_agg(desc):
     import symx.harness as H
 
